@@ -320,6 +320,17 @@ def check (c):
     worst = max (worst, d / 1e-12)
     if d > 1e-12:
         bad ('medium-object-reused', 'medium-object-reused', 'a Medium object that was the outer medium of a circular ground with radials, used again as the outer medium of a linear ground: pattern differs by %.3g of the maximum from fresh objects (boundary now %r)' % (d, getattr (mB.media [0], 'boundary', None)), measured = d, allowed = 1e-12)
+    # ---- (h2) interface coordinates in whole numbers, handed to the classes as python ints (also one on the last medium)
+    ci = max (1, int (round (g ['c1'])))
+    mI = gen.build (sA, route = 'api', media_objs = [MM.Medium (g ['eps'], g ['sig'], 0, coord = ci, boundary = g ['boundary']), MM.Medium (g ['eps2'], g ['sig2'], g ['h2'], coord = 7 * ci, boundary = g ['boundary'])])
+    observe.solve (mI)
+    mG, _, _ = solved (spec, [[g ['eps'], g ['sig'], 0.0, float (ci)], [g ['eps2'], g ['sig2'], g ['h2']]], g ['boundary'])
+    pI, pG = 10 ** (pattern (mI) [..., 2] / 10), 10 ** (pattern (mG) [..., 2] / 10)
+    mon ['int-coordinates'] = 1
+    d = float (np.abs (pI - pG).max () / pG.max ())
+    worst = max (worst, d / 1e-12)
+    if d > 1e-12:
+        bad ('int-coordinates', 'media-coordinates-as-ints', 'interface coordinates %d and %d given as python ints: pattern differs by %.3g of the maximum from the same ground given in floats' % (ci, 7 * ci, d), measured = d, allowed = 1e-12)
     # ---- (i) the frequency of the object changed (a sweep): the pattern over every form of ground is that of a fresh
     # object at the new frequency (screen reactance and ground impedances follow the frequency)
     for name in ('rad', '2med'):
